@@ -194,7 +194,15 @@ func splice(in []byte, off, n int, repl []byte) []byte {
 	return append(out, in[off+n:]...)
 }
 
-var hostile = []uint64{0, 1, 0xfc, 0xfd, 1 << 16, 1<<32 - 1, 1 << 63, 1<<64 - 1, 1 << 32, 50000, 50001, 33, 34, 64, 65}
+// values a length/count prefix is replaced with: varint width boundaries, field
+// limits, and the conversion classes (top bit set: negative as int; multiples
+// of 2^32 and 2^32+small: small again after a uint32 narrowing)
+var hostile = []uint64{0, 1, 0xfc, 0xfd, 0xffff, 1 << 16, 1<<16 + 1, 1<<32 - 1, 1<<64 - 1, 1<<32 + 5, 50000, 50001, 33, 34, 64, 65,
+	1<<63 + 16, 1<<63 - 1, 3 << 32, 10000, 10001}
+
+// always tried at every one-byte read (a possible varint prefix): one value with
+// the top bit set and one multiple of 2^32
+var hostileAlways = []uint64{1 << 63, 1 << 32}
 
 func main() {
 	if len(os.Args) > 1 && os.Args[1] == "--child" {
@@ -259,12 +267,29 @@ func main() {
 		add(decIdx(10, 0), append(append([]byte(nil), h...), 0xff, 0xff, 0xff, 0xff), "corpus:txloc-count-2^32-1")
 		add(decIdx(2, 0), append(append([]byte(nil), h...), 0xff, 0xff, 0xff, 0xff), "corpus:block-count-2^32-1")
 	}
+	// varint width boundaries through ReadVarUint directly: canonical encodings
+	// (accepted) and the shortest non-canonical ones (rejected)
+	for _, v := range codecgen.VarintBoundaries {
+		add(decIdx(20, 0), varint(v), "corpus:varint-boundary")
+	}
+	for _, h := range []string{"fdfc00", "fd0000", "feffff0000", "fe00000000", "ffffffffff00000000", "ff0000000000000000", "fd", "fe0000", "ff00000000000000"} {
+		add(decIdx(20, 0), unhex(h), "corpus:varint-noncanonical")
+	}
+	// byte-field length prefixes that are small only after a 32-bit narrowing or negative as int
+	for _, h := range []string{"ff0000000000000080", "ff0000000001000000", "ff1000000000000080", "ff2100000001000000", "ffffffffffffffffff", "feffffffff", "21", "22"} {
+		add(decIdx(21, 0), unhex(h), "corpus:varbytes-prefix")
+		add(decIdx(22, 0), unhex(h), "corpus:varstring-prefix")
+	}
+	add(decIdx(100+0x63, 1), unhex("ff0000000000000080"), "corpus:voting-renewal-count-2^63")
+	add(decIdx(100+0x63, 1), unhex("ffffffffffffffffff"), "corpus:voting-renewal-count-2^64-1")
+	add(decIdx(100+0x63, 0), unhex("ff0000000000000080"), "corpus:voting-count-2^63")
 	ncorpus := len(cases)
 
 	// ---- generated
 	seedsPer := run.N(2, 6)
 	mutPer := run.N(2, 5)
-	maxBound := run.N(16, 40)
+	maxBound := run.N(12, 40)
+	hcur := 0 // round-robin over the hostile values
 	for di := range decs {
 		d := &decs[di]
 		n := seedsPer
@@ -314,17 +339,20 @@ func main() {
 				}
 				switch w {
 				case 1:
-					for k := 0; k < mutPer; k++ {
-						v := hostile[rng.Intn(len(hostile))]
+					for _, v := range hostileAlways {
 						mut(si, seed, off, 1, varint(v), "prefix-varint")
+					}
+					for k := 0; k < mutPer; k++ {
+						hcur++
+						mut(si, seed, off, 1, varint(hostile[hcur%len(hostile)]), "prefix-varint")
 					}
 					if rng.Chance(30) {
 						mut(si, seed, off, 1, []byte{byte(rng.U64())}, "byte")
 					}
 				case 2, 4, 8:
 					for k := 0; k < (mutPer+1)/2; k++ {
-						v := hostile[rng.Intn(len(hostile))]
-						mut(si, seed, off, w, le(v, w), "prefix-fixed")
+						hcur++
+						mut(si, seed, off, w, le(hostile[hcur%len(hostile)], w), "prefix-fixed")
 					}
 				}
 			}
